@@ -763,3 +763,165 @@ Section KKRatio.
     - apply kk_gap_kth; assumption.
   Qed.
 End KKRatio.
+
+(** ---- 8. towards 4/3 - 1/(3k): what a threshold at the (2k+1)-th largest value would give ---- *)
+Definition Ppig3 (g l wl : Z) : Prop :=
+  0 <= wl /\ 0 <= l /\ (1 <= wl -> g <= l) /\ (2 <= wl -> 2 * g <= l) /\ (3 <= wl -> 3 * g <= l).
+
+Lemma Ppig3_step g a l wl : 0 <= g -> 0 <= a -> Ppig3 g l wl -> Ppig3 g (l + a) (wl + ind_ge g a).
+Proof. unfold Ppig3, ind_ge. intros Hg Ha (H0 & H1 & H2 & H3 & H4). destruct (g <=? a) eqn:E; lia. Qed.
+
+(** 2k + 1 values >= g in k bins: some bin holds three of them *)
+Lemma pigeon_thrice k vs s g : 0 <= g -> Forall (fun v => 0 <= v) vs -> Attainable k vs s ->
+  2 * Z.of_nat k < cnt_ge g vs -> 3 * g <= zmax s.
+Proof.
+  intros Hg Hpos Hs Hc. destruct (Z_lt_le_dec (zmax s) (3 * g)) as [Hlt|Hle]; [exfalso|exact Hle].
+  destruct (weights_along (Ppig3 g) (ind_ge g) k vs s) as (t & H1 & H2 & H3).
+  - unfold Ppig3. lia.
+  - eapply Forall_impl; [|exact Hpos]. intros a Ha l wl Hl. apply Ppig3_step; assumption.
+  - exact Hs.
+  - assert (Ht : Forall (fun b => b <= 2) t).
+    { apply (Forall2_transfer (Ppig3 g) (fun a => a <= zmax s) (fun b => b <= 2)) with (s := s); auto.
+      - unfold Ppig3. intros a b Hab Ha. lia.
+      - apply zmax_ge. }
+    pose proof (zsum_le_bound 2 t Ht) as H4. rewrite H2 in H4. unfold cnt_ge in Hc. lia.
+Qed.
+
+Lemma gap_ratio_43 k vs s opt G : (1 <= k)%nat -> Forall (fun v => 0 <= v) vs ->
+  Attainable k vs s -> Opt MinLargest k vs opt -> 3 * G <= opt ->
+  zmax s <= opt \/ zmax s - zmin s <= G ->
+  3 * Z.of_nat k * zmax s <= (4 * Z.of_nat k - 1) * opt.
+Proof.
+  intros Hk Hpos Hs Hopt HG Hd.
+  destruct (opt_minlargest_lower_bounds _ _ _ Hopt Hpos Hk) as [Hsum _].
+  pose proof (opt_minlargest_nonneg _ _ _ Hopt Hpos Hk) as H0.
+  set (K := Z.of_nat k) in *. assert (HK : 1 <= K) by (subst K; lia).
+  assert (E0 : 0 <= (K - 1) * opt) by (apply Z.mul_nonneg_nonneg; lia).
+  destruct Hd as [Hd|Hd].
+  - assert (E1 : K * zmax s <= K * opt) by (apply Z.mul_le_mono_nonneg_l; lia). lia.
+  - pose proof (Attainable_length _ _ _ Hs) as Hlen. pose proof (Attainable_sum _ _ _ Hs) as Hss.
+    assert (Hne : s <> []) by (apply length_pos_ne; lia).
+    pose proof (zsum_ge_one_plus_rest (zmax s) (zmin s) s (zmax_in s Hne) (zmin_le s)) as H1.
+    rewrite Hlen in H1. fold K in H1.
+    assert (H2 : (K - 1) * (zmax s - G) <= (K - 1) * zmin s) by (apply Z.mul_le_mono_nonneg_l; lia).
+    assert (H3 : (K - 1) * (3 * G) <= (K - 1) * opt) by (apply Z.mul_le_mono_nonneg_l; lia).
+    lia.
+Qed.
+
+(** the requested statement (C08), NOT proved in general *)
+Definition kk_ratio_43_statement : Prop :=
+  forall (A : Type) (valueof : A -> Z) (k : nat) (items : list A) (b : bins A) (opt : Z),
+    (1 <= k)%nat -> items <> [] -> Forall (fun x => 0 <= valueof x) items ->
+    kk valueof true k items = Ok b -> Opt MinLargest k (map valueof items) opt ->
+    3 * Z.of_nat k * zmax (sums b) <= (4 * Z.of_nat k - 1) * opt.
+
+Section KKRatio43.
+  Context {A : Type} (valueof : A -> Z).
+
+  (** k = 1 *)
+  Theorem kk_ratio_43_k1 items b opt : items <> [] -> Forall (fun x => 0 <= valueof x) items ->
+    kk valueof true 1 items = Ok b -> Opt MinLargest 1 (map valueof items) opt ->
+    3 * Z.of_nat 1 * zmax (sums b) <= (4 * Z.of_nat 1 - 1) * opt.
+  Proof.
+    intros Hne Hpos Hkk Hopt.
+    pose proof (kk_ratio_2 valueof 1 items b opt ltac:(lia) Hne Hpos Hkk Hopt). lia.
+  Qed.
+
+  (** k = 2: 5/4 instead of the 7/6 of Fischetti and Martello *)
+  Corollary kk_ratio_54_k2_partial items b opt : items <> [] -> Forall (fun x => 0 <= valueof x) items ->
+    kk valueof true 2 items = Ok b -> Opt MinLargest 2 (map valueof items) opt ->
+    4 * zmax (sums b) <= 5 * opt.
+  Proof.
+    intros Hne Hpos Hkk Hopt.
+    pose proof (kk_ratio_32_partial valueof 2 items b opt ltac:(lia) Hne Hpos Hkk Hopt). lia.
+  Qed.
+
+  (** the full bound would follow from the dichotomy at the (2k+1)-th largest value
+      ("largest sum <= OPT, or the sums differ by at most the (2k+1)-th largest value") *)
+  Theorem kk_ratio_43_from_dichotomy k items b opt : (1 <= k)%nat -> items <> [] ->
+    Forall (fun x => 0 <= valueof x) items -> kk valueof true k items = Ok b ->
+    Opt MinLargest k (map valueof items) opt ->
+    zmax (sums b) <= opt \/ zmax (sums b) - zmin (sums b) <= kth_value valueof (2 * k) items ->
+    3 * Z.of_nat k * zmax (sums b) <= (4 * Z.of_nat k - 1) * opt.
+  Proof.
+    intros Hk Hne Hpos Hkk Hopt Hd.
+    pose proof (values_nonneg valueof items Hpos) as Hvs.
+    destruct (kk_partition valueof k items Hk Hne) as (b' & Hb' & Hpart).
+    rewrite Hkk in Hb'. injection Hb' as <-.
+    destruct (kth_threshold (2 * k) (sorted_values valueof items) (sorted_values_sorted valueof items)
+                (sorted_values_nonneg valueof items Hpos)) as (H0 & _ & H2).
+    apply (gap_ratio_43 k (map valueof items) (sums b) opt (kth_value valueof (2 * k) items)); try assumption.
+    - apply partition_attainable. exact Hpart.
+    - unfold kth_value.
+      destruct (Nat.lt_ge_cases (2 * k) (length (sorted_values valueof items))) as [Hlt|Hge].
+      + destruct Hopt as [(s & Hs & Ev) _]. rewrite value_MinLargest in Ev. subst opt.
+        apply (pigeon_thrice k (map valueof items) s); try assumption.
+        unfold cnt_ge. rewrite <- (zsum_perm _ _ (Permutation_map _ (sorted_values_perm valueof items))).
+        specialize (H2 Hlt). unfold cnt_ge in H2. lia.
+      + rewrite (nth_overflow _ 0 Hge). pose proof (opt_minlargest_nonneg _ _ _ Hopt Hvs Hk). lia.
+  Qed.
+End KKRatio43.
+
+(** ---- 9. examples and machine checks against the exact oracle ---- *)
+Notation idZ := (fun v : Z => v).
+
+Definition kk_sums (k : nat) (vs : list Z) : list Z :=
+  match kk idZ true k vs with Ok b => sums b | Err _ => [] end.
+Definition optv (k : nat) (vs : list Z) : Z :=
+  match opt_value MinLargest k vs with Some v => v | None => 0 end.
+
+(** the requested bound is attained for k = 2 (Fischetti and Martello's 7/6) *)
+Example kk_43_tight_k2 :
+  kk_sums 2 [3; 3; 2; 2; 2] = [5; 7] /\ optv 2 [3; 3; 2; 2; 2] = 6 /\ 3 * 2 * 7 = (4 * 2 - 1) * 6.
+Proof. vm_compute. repeat split; reflexivity. Qed.
+
+(** the theorems applied to it through the verified oracle *)
+Example kk_32_example b : kk idZ true 2 [3; 3; 2; 2; 2] = Ok b -> 4 * zmax (sums b) <= 5 * 6.
+Proof.
+  intros H. apply (kk_ratio_54_k2_partial idZ [3; 3; 2; 2; 2] b 6); [discriminate| |exact H|].
+  - repeat constructor; lia.
+  - destruct (opt_value_spec MinLargest 2 [3; 3; 2; 2; 2] ltac:(lia)) as (v & Ev & Hv).
+    vm_compute in Ev. injection Ev as <-. rewrite map_id. exact Hv.
+Qed.
+
+Fixpoint lcg43 (n : nat) (s md : Z) : list Z :=
+  match n with
+  | O => []
+  | S m => let s' := (s * 1103515245 + 12345) mod 2147483648 in (1 + (s' / 65536) mod md) :: lcg43 m s' md
+  end.
+Definition inst43 (seed : Z) : nat * list Z :=
+  (Z.to_nat (1 + seed mod 4), lcg43 (Z.to_nat (1 + seed mod 9)) seed (3 + seed mod 17)).
+
+Definition kth_of (j : nat) (vs : list Z) : Z := nth j (sort_desc idZ vs) 0.
+Definition check_dichotomy (k : nat) (vs : list Z) : bool :=
+  let s := kk_sums k vs in (zmax s <=? zmax vs) || (zmax s - zmin s <=? kth_of k vs).
+Definition check_32 (k : nat) (vs : list Z) : bool :=
+  2 * Z.of_nat k * zmax (kk_sums k vs) <=? (3 * Z.of_nat k - 1) * optv k vs.
+Definition check_43 (k : nat) (vs : list Z) : bool :=
+  3 * Z.of_nat k * zmax (kk_sums k vs) <=? (4 * Z.of_nat k - 1) * optv k vs.
+
+(** the proved statements and the requested (unproved) one on 300 pseudo-random instances,
+    k = 1..4, up to 9 items *)
+Example kk_checks_random :
+  forallb (fun s => let (k, vs) := inst43 s in check_dichotomy k vs && check_32 k vs && check_43 k vs)
+          (map Z.of_nat (seq 1 300)) = true.
+Proof. vm_compute. reflexivity. Qed.
+
+(** OPEN for k = 2 (Fischetti and Martello 1987): the hypothesis of [kk_ratio_43_from_dichotomy],
+    here only checked on instances *)
+Definition check_dichotomy_2k (k : nat) (vs : list Z) : bool :=
+  let s := kk_sums k vs in (zmax s <=? optv k vs) || (zmax s - zmin s <=? kth_of (2 * k) vs).
+
+Example kk_dichotomy_2k_k2_random :
+  forallb (fun s => check_dichotomy_2k 2 (lcg43 (Z.to_nat (1 + s mod 11)) s (3 + s mod 23)))
+          (map Z.of_nat (seq 1 300)) = true.
+Proof. vm_compute. reflexivity. Qed.
+
+(** ... but that hypothesis is FALSE for k = 3: sums 6, 7, 8, optimum 7, 7th largest value 1.
+    (The bound itself holds: 9 * 8 <= 11 * 7.)  So the proof of the general bound cannot be
+    the threshold argument used here. *)
+Example kk_dichotomy_2k_fails_k3 :
+  kk_sums 3 [6; 4; 3; 3; 2; 2; 1] = [6; 7; 8] /\ optv 3 [6; 4; 3; 3; 2; 2; 1] = 7 /\
+  kth_of 6 [6; 4; 3; 3; 2; 2; 1] = 1 /\ check_dichotomy_2k 3 [6; 4; 3; 3; 2; 2; 1] = false /\
+  check_43 3 [6; 4; 3; 3; 2; 2; 1] = true.
+Proof. vm_compute. repeat split; reflexivity. Qed.
